@@ -2,6 +2,7 @@
 import random
 
 import corecheck
+import worlds
 
 FAM = {'C01'}
 
@@ -42,7 +43,7 @@ def run(chk, tier, seed, replay=None):
     if tier == 'quick':
         corecheck.run_mc(chk, ['Runner_design', 'Runner_probe'],
                          expect_violation=['Runner_probe'])
-        n1, n2 = 150, 90
+        n1, n2 = 130, 70
     else:
         corecheck.run_mc(chk, ['Runner_design', 'Runner_deep', 'Runner_deep2',
                                'Runner_hooks', 'Runner_live', 'Runner_probe'],
@@ -69,6 +70,23 @@ def run(chk, tier, seed, replay=None):
     prof_c = {'kinds': 'mixed', 'hooks': 'all', 'faults': (0.0, 0.3, 0.08),
               'outcomes': ['pass'], 'opts': opts_c, 'permute_names': True, 'big': 0.3}
     cases += corecheck.gen_cases(rng, g4, 50 if tier == 'quick' else 600, prof_c, 'c')
+    # layer setUps fail often, in graphs with several bases per layer: a setUp failing
+    # half-way up a stack leaves some of its bases set up for the next layer
+    prof_d = {'kinds': 'mixed', 'hooks': 'all', 'faults': (0.3, 0.0, 0.0),
+              'outcomes': ['pass'], 'opts': lambda r: {'verbose': r.choice([0, 1])},
+              'permute_names': True, 'big': 0.6}
+    cases += corecheck.gen_cases(rng, g4, 30 if tier == 'quick' else 400, prof_d, 'd')
+    # directed: X(r1, r2, r3) with one root's setUp failing half-way, then Y on one root
+    for k in range(24 if tier == 'quick' else 240):
+        perm = [1, 2, 3]
+        rng.shuffle(perm)
+        g = {'n': 5, 'bases': [[], [], [], perm, [rng.choice([1, 2, 3])]]}
+        names = worlds.permuted_names(rng, 5)
+        bad = names[rng.choice(perm[1:]) - 1]
+        w = worlds.make_world('e%d' % k, g, rng, kinds=rng.choice(['class', 'instance', 'mixed']), hooks='all',
+                              faults={bad: {'setUp': 'raise'}}, outcomes=['pass'],
+                              owners=[names[3], names[4]], names=names)
+        cases.append({'id': w['id'], 'world': w, 'o': {'verbose': rng.choice([0, 1])}, 'mode': 'inproc'})
     for c in cases[:3]:
         chk.sample({'world': c['world'], 'options': c['o'], 'mode': c['mode']})
     corecheck.run_cases(chk, FAM, cases)
